@@ -25,6 +25,8 @@ def main():
     silent = []
     for sd in sorted(glob.glob(os.path.join(VERIF, "seeded", "*"))):
         name = os.path.basename(sd)
+        if not os.path.isdir(sd):
+            continue
         if pref and not any(name.startswith(x) for x in pref):
             continue
         prop = name[:3]
